@@ -112,6 +112,18 @@ def richCase : Case :=
     generated code mentions). -/
 theorem C17_table_is_intended (c : Case) : table c = uses c := table_eq_uses c
 
+/-- **C17_getattr_script_hermetic**: the cached-property `__getattr__` of slotted classes is evaluated in
+    globals of its own that never include the module namespace: its helper parameters get attrs's
+    objects and `super`, `hasattr`, `AttributeError` are the builtins, for every class and every module. -/
+theorem C17_getattr_script_hermetic (c : Case) : getattrTable c = getattrUses c :=
+  getattrTable_eq_uses c
+
+/-- what it excludes: were the module's `__dict__` merged into that script's globals first, a module-level
+    `super` would be what the generated `__getattr__` calls. -/
+theorem C17_getattr_module_first_loses :
+    resolveIn (getattrGlobsWith ["module", "fixed"] [("super", moduleObj "super")]) "super" = moduleObj "super" ∧
+    resolveIn (getattrGlobs [("super", moduleObj "super")]) "super" = ⟨.builtin, "super"⟩ := by decide
+
 /-- **C17_module_irrelevant**: the same class specification defined in modules that pre-bind
     different sets of names resolves every load identically. -/
 theorem C17_module_irrelevant (c : Case) (p : Poison) : table { c with poison := p } = table c := by
@@ -123,15 +135,22 @@ theorem C17_model_meets_spec (c : Case) (hk : known c = []) :
     spec c (model c) = true := by
   have hs := known_nil c hk
   have ht := table_eq_uses c
-  simp only [spec, model, ht, helperClash_false c, hs, Bool.and_eq_true]
+  have hall : ∀ u ∈ uses c ++ getattrUses c, entryOk c u = true := by
+    intro u hu
+    rcases List.mem_append.1 hu with h | h
+    · exact uses_entryOk c u h
+    · exact getattrUses_ok c u h
+  simp only [spec, model, ht, getattrTable_eq_uses c, helperClash_false c, hs, Bool.and_eq_true]
   refine ⟨⟨⟨⟨⟨⟨by decide, ?_⟩, by decide⟩, trivial⟩, trivial⟩, ?_⟩, ?_⟩
   · simp only [Bool.not_eq_true', List.any_eq_false, beq_iff_eq]
     intro u hu
-    exact entryOk_not_module c u (uses_entryOk c u hu)
-  · exact List.all_eq_true.2 (uses_entryOk c)
+    exact entryOk_not_module c u (hall u hu)
+  · exact List.all_eq_true.2 hall
   · rw [List.all_eq_true]
     intro r hr
-    simpa using required_sub c hs r hr
+    have := required_sub c hs r hr
+    simp only [List.contains_iff_mem, List.mem_append]
+    exact Or.inl this
 
 example : wf richCase = true ∧ known richCase = [] ∧ (table richCase).length = 21 := by decide
 
@@ -186,6 +205,17 @@ theorem C17_source_is_code (pre : Cache) (ts : List Thread) (hstart : ∀ t ∈ 
   have hgood : Good (run { cache := pre, threads := ts } sched) := run_good _ _ (good_start pre ts hstart)
   obtain ⟨h1, h2⟩ := code_of_good _ hgood t ht code hc
   rw [h2]; exact h1
+
+/-- **C17_later_definitions_keep_entries**: once a class has its code object, whatever happens afterwards
+    — any number of further definitions by any threads in any interleaving, including definitions that
+    are refused after their methods were compiled (a refusal is not a cache operation; the refused
+    definition's own steps are ordinary steps) — the entry under its filename still holds its source. -/
+theorem C17_later_definitions_keep_entries (s : State) (hg : Good s) (sched : List Nat)
+    (t : Thread) (ht : t ∈ s.threads) (code : Code) (hc : t.code? = some code) :
+    (run s sched).cache.get code.filename = some code.source := by
+  obtain ⟨h1, h2⟩ := code_of_good s hg t ht code hc
+  rw [h2]
+  exact run_mono s sched _ _ h1
 
 /-- **C17_loop_terminates**: a thread running alone against a cache with `n` entries — whatever they
     are — has its code object after at most `n + 3` steps (candidate filenames are pairwise different). -/
